@@ -17,6 +17,7 @@ typedef struct { unsigned char *base; int rows; } Region;
 static Region reg[VR_NARR];
 
 static int shard, nshards, thorough;
+static long st_straddle;
 static long g_idx, st_programs, st_runs, st_viol, st_compiled, st_emul;
 static VTarget targets[8];
 static int ntargets, nsamples;
@@ -28,7 +29,22 @@ static void regions_init (void)
   int i, r;
   for (i = 0; i < VR_NARR; i++) {
     reg[i].rows = MAXROWS;
-    reg[i].base = mmap (NULL, (2 * MAXROWS + 1) * PG, PROT_NONE, MAP_PRIVATE | MAP_ANONYMOUS, -1, 0);
+    /* every region straddles a multiple of 4 GiB: the boundary lies between row 0 and row 1, so the step from the first
+     * row to the second (either direction) carries into / borrows from the high half of the row pointer, and the
+     * step between rows 1 and 2 does not */
+    reg[i].base = MAP_FAILED;
+#ifdef MAP_FIXED_NOREPLACE
+    if (sizeof (void *) == 8) {
+      int k;
+      for (k = 0; k < 4 && reg[i].base == MAP_FAILED; k++)
+        reg[i].base = mmap ((void *) ((((uintptr_t) 0x20 + 0x40 * k + i) << 32) - 2 * PG), (2 * MAXROWS + 1) * PG, PROT_NONE, MAP_PRIVATE | MAP_ANONYMOUS | MAP_FIXED_NOREPLACE, -1, 0);
+    }
+#endif
+    if (reg[i].base != MAP_FAILED && (((uintptr_t) reg[i].base + 2 * PG) & 0xffffffffu) == 0) st_straddle++;
+    else {
+      if (reg[i].base != MAP_FAILED) munmap (reg[i].base, (2 * MAXROWS + 1) * PG);
+      reg[i].base = mmap (NULL, (2 * MAXROWS + 1) * PG, PROT_NONE, MAP_PRIVATE | MAP_ANONYMOUS, -1, 0);
+    }
     for (r = 0; r < MAXROWS; r++) mprotect (reg[i].base + PG * (1 + 2 * r), PG, PROT_READ | PROT_WRITE);
   }
 }
@@ -306,7 +322,7 @@ static void worker (long start, void *user)
       for (i = 0; i < np; i++) { long idx = g_idx++; if (idx >= start && (idx % nshards) == shard) explore (progs[i], NULL, idx); }
     }
   }
-  v_out ("{\"t\":\"stat\",\"programs\":%ld,\"compiled\":%ld,\"runs\":%ld,\"emulation_runs\":%ld,\"violations_raw\":%ld}", st_programs, st_compiled, st_runs, st_emul, st_viol);
+  v_out ("{\"t\":\"stat\",\"programs\":%ld,\"compiled\":%ld,\"runs\":%ld,\"emulation_runs\":%ld,\"violations_raw\":%ld,\"regions_across_4GiB\":%ld}", st_programs, st_compiled, st_runs, st_emul, st_viol, st_straddle);
   v_out ("{\"t\":\"max\",\"space_size\":%ld}", g_idx);
 }
 
